@@ -82,6 +82,9 @@ def judge(before: bytes, after: bytes, whole_file_formatted: bool):
         return f"result is not UTF-8: {e}"
     if a == b:
         return None
+    if a.startswith("\ufeff") != b.startswith("\ufeff"):
+        return "the UTF-8 byte order mark at the start of the file was " + ("removed" if b.startswith("\ufeff") else "added")
+    a, b = a.removeprefix("\ufeff"), b.removeprefix("\ufeff")
     try:
         compile(a, "<rewritten>", "exec")
     except SyntaxError as e:
@@ -120,15 +123,14 @@ def classify(prog, before: bytes, after: bytes, why):
         return "F-03"
     if b"\r\n" in before and why and "outside" in why:
         return "F-03"
-    if before.startswith(b"\xef\xbb\xbf"):
-        return "F-11"
     if prog["opts"].get("parens") and why and ("not valid Python" in why or "cannot be analysed" in why or "number of" in why):
         return "F-20"
     return None
 
 
 LAYOUTS = [{}, {"nonascii": True}, {"tabs": True}, {"nonascii": True, "tabs": True}, {"no_final_newline": True}, {"crlf": True}, {"nonascii": True, "per_test": 3},
-           {"mixed_eol": 2}, {"mixed_eol": 3, "first_crlf": True}, {"odd_breaks": True}, {"odd_breaks": True, "nonascii": True, "per_test": 2}]
+           {"mixed_eol": 2}, {"mixed_eol": 3, "first_crlf": True}, {"odd_breaks": True}, {"odd_breaks": True, "nonascii": True, "per_test": 2},
+           {"bom": True}, {"bom": True, "nonascii": True, "per_test": 2}]
 
 
 def gen_case(rng, i):
